@@ -208,6 +208,29 @@ func genC05(tier string, seed uint64, emit func(string)) {
 			emit(serveLine(fmt.Sprintf("lag=%d", lag), [][]byte{requestBytes(t.argv(), nil)}, genScript(r, 1, false), floatTable(t.argv()), "x "+t.expected))
 		}
 	}
+	// executors the application registers itself are found like the built-in ones: any letter case, names of any length
+	appNames := []string{"MYAPP.GET", "MYAPPLICATION.GT", "MYAPPLICATION.GET", "TDIGEST.BYREVRANK_MEMBER", "X.THIS-IS-A-RATHER-LONG-APPLICATION-COMMAND.NAME.OF.64.BYTES.....", "A"}
+	var appHex []string
+	for _, n := range appNames {
+		appHex = append(appHex, hx([]byte(n)))
+	}
+	appCfg := "app=" + strings.Join(appHex, ",")
+	for _, name := range appNames {
+		spellings := [][]byte{[]byte(name), []byte(strings.ToLower(name))}
+		for i := 0; i < 6; i++ {
+			spellings = append(spellings, randCase(r, name))
+		}
+		for _, sp := range spellings {
+			key := gS(r)
+			argv := [][]byte{sp, key}
+			emit(serveLine(appCfg, [][]byte{requestBytes(argv, nil)}, genScript(r, 1, false), "", "x get("+hx(key)+")"))
+		}
+		// a name that is not registered (one byte more, one byte less) stays unknown; a missing argument is an error
+		emit(serveLine(appCfg, [][]byte{requestBytes([][]byte{[]byte(name + "X"), gS(r)}, nil)}, genScript(r, 1, false), "", "unknown"))
+		if len(name) > 1 {
+			emit(serveLine(appCfg, [][]byte{requestBytes([][]byte{[]byte(name[:len(name)-1]), gS(r)}, nil)}, genScript(r, 1, false), "", "unknown"))
+		}
+	}
 	// unknown commands: error reply, no handler call
 	for i := 0; i < per; i++ {
 		// (incl. names whose Unicode upper case would spell a command: U+017F long s, U+0131 dotless i, U+212A Kelvin)
@@ -443,6 +466,18 @@ func genC03(tier string, seed uint64, emit func(string)) {
 		p := &pipeline{reqs: [][]byte{requestBytes(argv, nil), reqS("PING")}, quit: -1}
 		emit(serveLine("blk", [][]byte{p.bytes()}, "r i:31", floatTable(argv), fmt.Sprintf("served 2 ends %d %d", len(p.reqs[0]), len(p.bytes()))))
 	}
+	// argument values that mean something elsewhere (command names, sentinel error texts, parameter names): an error
+	// reply that carries such a word is an error reply like any other, the connection stays usable
+	for _, w := range meaningWords {
+		for _, argv := range [][][]byte{bs("CONFIG", w), bs("CONFIG", w, w), bs("ECHO", w), bs("GET", w), bs(w)} {
+			p := &pipeline{reqs: [][]byte{requestBytes(argv, nil), reqS("PING"), reqS("ECHO", "hi")}, quit: -1}
+			if strings.EqualFold(w, "QUIT") && len(argv) == 1 {
+				continue
+			}
+			l0, l1 := len(p.reqs[0]), len(p.reqs[0])+len(p.reqs[1])
+			emit(serveLine("blk", [][]byte{p.bytes()}, "r b:76", floatTable(argv), fmt.Sprintf("served 3 ends %d %d %d", l0, l1, len(p.bytes()))))
+		}
+	}
 	for i := 0; i < n; i++ {
 		p := genPipeline(r, 12, false)
 		script := genScript(r, 1+r.Intn(4), false)
@@ -548,7 +583,7 @@ func genC04(tier string, seed uint64, emit func(string)) {
 	if tier == "thorough" {
 		n = 120000
 	}
-	forged := []string{"foo\r\n+OK\r\n", "x\r\n:1\r\n", "k\r\n$-1\r\n", "\r", "\n", "a\rb", "-ERR\r\n"}
+	forged := append([]string{"foo\r\n+OK\r\n", "x\r\n:1\r\n", "k\r\n$-1\r\n", "\r", "\n", "a\rb", "-ERR\r\n"}, utf8Traps...)
 	for i := 0; i < n; i++ {
 		var stream []byte
 		var argvs [][][]byte
